@@ -83,7 +83,7 @@ class C19(World):
     thorough = dict(runs=3_000_000, budget_s=900)
     components_real = ["OpenPinch.classes.stream.Stream", "OpenPinch.classes.stream_collection.StreamCollection"]
     components_stub = []
-    fault_kinds = []
+    fault_kinds = ["batch_failed_after_none", "batch_failed_after_some", "setter_raised"]
     state_abstraction = "per stream (kind, sign of t_supply - t_target or 'incomplete', sign of duty) and per collection (size, stale flag, sort-key kind, direction, number of renamed keys)"
     rule = (
         "each run = one generated history (3-30 steps) of constructor/setter calls on a pool of <=6 Stream objects and "
@@ -223,7 +223,7 @@ class C19(World):
         models: list[list] = []  # per collection: list of [key, stream_pool_index]  (insertion ordered, dict semantics)
         cmeta: list[dict] = []  # per collection: sort spec + staleness bookkeeping
         viol, log = [], []
-        stats = dict(ops={}, pairs={}, probes={}, checks={})
+        stats = dict(ops={}, pairs={}, probes={}, checks={}, faults={})
         states = set()
         prev_op = None
 
@@ -484,6 +484,7 @@ class C19(World):
                     except Exception as e:
                         outcome = "raise:" + type(e).__name__
                         probe("setter_raised")
+                        stats["faults"]["setter_raised"] = stats["faults"].get("setter_raised", 0) + 1
                     still_incomplete = s.t_supply is None or s.t_target is None
                     after_dir = 0 if still_incomplete else _dirn(s)
                     if incomplete and not still_incomplete:
@@ -608,8 +609,9 @@ class C19(World):
                     outcome = "ok"
                 except Exception as e:
                     outcome = "raise:" + type(e).__name__
-                fault_probe = "batch_failed_after_%s" % ("some" if pos else "none")
-                probe(fault_probe)
+                if outcome != "ok":
+                    fk = "batch_failed_after_%s" % ("some" if pos else "none")
+                    stats.setdefault("faults", {})[fk] = stats.setdefault("faults", {}).get(fk, 0) + 1
                 # Re-synchronise the model from what the collection says it holds, through the un-cached public queries
                 # (`key in c`, `c[key]`): what a failed batch leaves behind is not specified (nothing / a prefix / all valid
                 # elements), but it may only hold old members and batch members, an insertion may not lose an old member,
